@@ -231,12 +231,29 @@ impl Handler {
             let store = store.clone();
             let options = options.clone();
             let mut handler = self.clone();
+            #[cfg(feature = "verif")]
+            let vhooks = store.verif_hooks().clone();
+            #[cfg(feature = "verif")]
+            let vwho = crate::verif::Who::new("htask", self.id.to_u128());
+            #[cfg(feature = "verif")]
+            vhooks.spawned(vwho);
 
             tokio::spawn(async move {
+                #[cfg(feature = "verif")]
+                {
+                    let _vguard = vhooks.guard(vwho);
+                    vhooks.point_as("htask.start", vwho, None);
+                }
                 handler.serve(&store, options).await;
             });
         }
 
+        #[cfg(feature = "verif")]
+        store.verif_hooks().point_as(
+            "hspawn.announce",
+            crate::verif::Who::new("hspawn", self.id.to_u128()),
+            None,
+        );
         let _ = store.append(
             Frame::builder(format!("{}.registered", &self.topic), self.context_id)
                 .meta(serde_json::json!({
@@ -246,6 +263,10 @@ impl Handler {
                 }))
                 .build(),
         );
+        #[cfg(feature = "verif")]
+        store
+            .verif_hooks()
+            .finished(crate::verif::Who::new("hspawn", self.id.to_u128()));
 
         Ok(())
     }
